@@ -79,21 +79,24 @@ Example accepting_run_exists :
   r_live (run_of tag_inj (s0 tag_inj) 10%Z (rev_fetch tag_inj) no_faults) = [kB].
 Proof. vm_compute. auto. Qed.
 
-(* the one-tag hypothesis of accepted_revocation_immediate is necessary: the same public key configured
-   under two flags values (257 and 1) gives two entries of one material; revoking the 257 form leaves the
-   other one published by the accepting run (the next run's precedence pass removes it).  Replayed on the
-   Go code by the driver (kind dualflags). *)
+(* repaired by 3c40407 (finalRootKeys skips tombstoned material).  The same public key configured and
+   published under two flags values (257 and 1) gives two anchor-table entries of one key material under
+   two tags.  Revoking the 257 form tombstones the material; the run that accepts the revocation no longer
+   publishes the flags-1 sibling (before the fix it did, for that one run: finding
+   one-public-key-under-two-flags-values-survives-its-revocation-for-one-run, driver kind dualflags,
+   corpus/C09/09-dualflags.json).  The sibling's state entry is still written by that run — every reader
+   applies tombstone precedence — and the next run deletes it. *)
 Definition tag_fl (k : key) : N := k_mat k * 1000 + k_flags k.
 Definition kA1 := mk_key 1 1.
-Lemma accepted_revocation_immediate_needs_one_tag :
-  exists tag s now fe key,
-    let r := run_of tag s now fe no_faults in
-    In 1 (r_revoked r) /\ In key (r_live r) /\ k_mat key = 1 /\
-    (* and only for that one run *)
-    ~ In key (s_live (step tag (step tag s (ERun now fe no_faults)) (ERun (now + 1)%Z FErr no_faults))).
-Proof.
-  exists tag_fl,
-         (step tag_fl (mk_sys [kA; kA1; kB] [kA; kA1; kB] empty_disk) (ERun 0 (FResp [kA; kA1; kB] [sg tag_fl kA; sg tag_fl kB]) no_faults)),
-         10%Z, (FResp [kA'; kA1; kB] [sg tag_fl kA'; sg tag_fl kB]), kA1.
-  vm_compute. repeat split; auto. intros H; repeat (destruct H as [H|H]; [discriminate|]); destruct H.
-Qed.
+Definition dual0 : sys :=
+  step tag_fl (mk_sys [kA; kA1; kB] [kA; kA1; kB] empty_disk) (ERun 0 (FResp [kA; kA1; kB] [sg tag_fl kA; sg tag_fl kB]) no_faults).
+Definition dual_rev : fetch := FResp [kA'; kA1; kB] [sg tag_fl kA'; sg tag_fl kB].
+Example dualflags_sibling_withheld :
+  let r := run_of tag_fl dual0 10%Z dual_rev no_faults in
+  let s1 := step tag_fl dual0 (ERun 10%Z dual_rev no_faults) in
+  let s2 := step tag_fl s1 (ERun 11%Z dual_rev no_faults) in
+  s_live dual0 = [kB; kA1; kA] /\ r_revoked r = [1] /\ r_live r = [kB] /\
+  (* what the old publication rule (all Valid|Missing entries of the written table) would have published *)
+  trusted_keys (match d_state (s_disk s1) with Some s => s | None => [] end) = [kB; kA1] /\
+  d_state (s_disk s2) = Some [(tag_fl kB, mk_ta kB SValid 0%Z)] /\ s_live s2 = [kB].
+Proof. vm_compute. repeat split; reflexivity. Qed.
